@@ -9,6 +9,7 @@ import (
 	"os/exec"
 	"path/filepath"
 	"runtime"
+	"runtime/pprof"
 	"sort"
 	"strconv"
 	"strings"
@@ -535,7 +536,14 @@ func WorkerMain(prop, tier string, seed int64, shard, n int, skip []int64, trace
 		heap = spec.HeapLimit
 	}
 	c.StartWatchdog(stall, heap)
+	if pf := os.Getenv("VERIF_CPUPROFILE"); pf != "" {
+		if f, err := os.Create(fmt.Sprintf("%s.%d", pf, shard)); err == nil {
+			pprof.StartCPUProfile(f)
+			defer pprof.StopCPUProfile()
+		}
+	}
 	spec.Run(c)
+	pprof.StopCPUProfile()
 	b, err := json.Marshal(c.Result())
 	if err != nil {
 		fmt.Fprintln(os.Stderr, err)
